@@ -113,3 +113,12 @@ pub fn poll_transmit_retransmit(offset: u64, unsent: u64, lo: u64, hi: u64, max_
     core::mem::forget(sb);
     f
 }
+
+/// Native replay body for the E2 query `e2_sendbuf_poll_transmit` (dispatches to the two bodies above).
+pub fn poll_transmit_native(offset: u64, unsent: u64, max_len: usize, has_range: bool, lo: u64, hi: u64) -> u32 {
+    if has_range {
+        poll_transmit_retransmit(offset, unsent, lo, hi, max_len)
+    } else {
+        poll_transmit_new(offset, unsent, offset as usize, max_len)
+    }
+}
